@@ -148,7 +148,7 @@ def run_model_instances(run, mc_module, monitor, instances, variants=None, kinds
 
 def standard_run(prop, tier, seed, mc_module, monitor, instances, kinds, rule, nontrivial, anchors=None,
                  variants=None, post=None, judge_field='.tr', exhaustive=None, extra=None, known_sig=None,
-                 sample_keys=('ev',), max_exec=None, random_scripts=None, keep_reads=False):
+                 sample_keys=('ev',), max_exec=None, random_scripts=None, keep_reads=False, need_actions=()):
     """The whole pipeline for one property decided on the session model."""
     r = pipeline.Run(prop, tier, seed)
     r.rule = rule
@@ -182,6 +182,13 @@ def standard_run(prop, tier, seed, mc_module, monitor, instances, kinds, rule, n
     r.nontrivial = len(nt)
     r.exhaustive = ((tier == 'quick') if exhaustive is None else exhaustive) and not getattr(r, 'exhaustive_broken', False)
     r.cov['anchors_seen'] = sorted(seen)
+    never = sorted(a for a in need_actions if not r.actions.get(a))
+    r.cov['model_actions_never_taken'] = sorted(a for a in ('Start', 'Connect', 'SendRequest', 'MakeSelector', 'LoopTest', 'Wait', 'Chunk', 'RegPoll', 'RegPing',
+                                                           'RegPingTimeout', 'RegCloseTimeout', 'Recv', 'FeedNext', 'CloseFin', 'CloseEcho', 'ErrClose',
+                                                           'ExitNonGraceful', 'ExitGraceful', 'Finish', 'AppReact') if r.actions and not r.actions.get(a))
+    if never:
+        seen.add('!model actions never taken: %s' % never)
+        raise pipeline.MachineryFailure('vacuous model run: the actions %s of spec/Lomond.tla were never taken (TLC -coverage)' % never)
     for label, b, sc, log in results[:2] + results[len(results) // 2: len(results) // 2 + 1]:
         r.samples.append({"instance": label, "scenario": sc,
                           "trace": [x for x in slim(log, set(sample_keys) | {'call'})][:40]})
